@@ -255,6 +255,7 @@ def locales(ctx, shard, nshards):
             y_, m_, d_ = R.ymd(n_)
             return (fmt.replace("%A", Al).replace("%a", a).replace("%B", Bn).replace("%b", b)
                     .replace("%d", "%02d" % d_).replace("%Y", "%04d" % y_))
+        via_stdin = rnd.random() < 0.4
         for combo in ("from", "to", "both", "both-rev"):
             use_from = combo in ("from", "both", "both-rev")
             use_to = combo in ("to", "both", "both-rev")
@@ -279,14 +280,19 @@ def locales(ctx, shard, nshards):
                 inp2 = render(ifmt, A if use_from else None, n + 2)
                 args, res_n = lopts + ["-i", ifmt, "-f", FMT_NAMES, inp, inp2], [n, n + 1, n + 2]
             exp = "".join(render(FMT_NAMES, Bl if use_to else None, x) + "\n" for x in res_n)
-            r = run(ctx, tool, args, b"", env0)
+            stdin = b""
+            if tool != "dseq" and via_stdin:
+                # the value arrives on stdin (the line reader finds it by the format's first literal)
+                args = [a for a in args if a != inp]
+                stdin = (inp + "\n").encode("utf-8", "surrogateescape")
+            r = run(ctx, tool, args, stdin, env0)
             sub.evaluations += 1
             if A.name != Bl.name:
                 sub.nt((tool, A.name, Bl.name, combo, n))
             got = r.out.decode("utf-8", "surrogateescape")
             if r.crashed or got != exp:
-                V.add("locale:%s:%s" % (tool, combo),
-                      {"tool": tool, "args": args, "exp": exp, "kind": "locale"},
+                V.add("locale:%s:%s%s" % (tool, combo, ":stdin" if stdin else ""),
+                      {"tool": tool, "args": args, "exp": exp, "kind": "locale", "stdin": stdin.decode("latin-1")},
                       expected=exp, actual={"out": got[:200], "rc": r.rc, "err": r.err[:200].decode("latin-1")},
                       weight=len(" ".join(args)))
         if it < 2 and shard == 0:
@@ -297,7 +303,7 @@ def locales(ctx, shard, nshards):
 def replay(ctx, subname, case):
     ensure_preload()
     if case["kind"] == "locale":
-        r = run(ctx, case["tool"], case["args"], b"", BASE_ENV)
+        r = run(ctx, case["tool"], case["args"], case.get("stdin", "").encode("latin-1"), BASE_ENV)
         got = r.out.decode("utf-8", "surrogateescape")
         return None if (got == case["exp"] and not r.crashed) else {"expected": case["exp"], "actual": got[:300], "err": r.err[:200].decode("latin-1")}
     stdin = case["stdin"].encode("latin-1")
